@@ -99,4 +99,45 @@ Section MK.
     replace (at_ r5 j + at_ msgs j * c) with (at_ r5 j + c * at_ msgs j) by ring.
     eapply mask_ok; eassumption.
   Qed.
+
+  (* ---------------------------------------------------------------- the issuance proof (multi-secret opening of the commitment) *)
+  Lemma mmapM_bits_top k : forall (l : list N) ds r ds',
+    Forall bits_top ds -> mmapM (fun _ => random_bits k) l ds = Ok (r, ds') ->
+    Forall (fun b => 2 ^ (k - 1) <= b) r /\ length r = length l /\ Forall bits_top ds'.
+  Proof.
+    induction l as [|a l IH]; intros ds r ds' Hd H; cbn [mmapM] in H.
+    - apply mret_ok in H as [-> ->]. repeat split; [constructor|assumption].
+    - mstep H b d1 Hb. mstep H bs d2 Hbs. apply mret_ok in H as [-> ->].
+      apply random_bits_top in Hb as [Hb1 Hd1]; [|assumption].
+      destruct (IH d1 bs d2 Hd1 Hbs) as [Hf [Hl Hd2]].
+      split; [constructor; assumption|]. split; [cbn; lia|assumption].
+  Qed.
+
+  (* every response about a hidden attribute of the issuance proof is masked -- whatever the attribute is (0 included), for every list of
+     hidden positions; c is the challenge the prover hashed *)
+  Theorem nispm_hidden_responses_masked msgs C pk bases U ds p ds' :
+    Forall bits_top ds ->
+    nispm_gen CS msgs C pk bases U ds = Ok (p, ds') ->
+    321 <= lm CS + MASK ->
+    let U' := (if Nat.eqb (length msgs) 1 then [0%N] else option_default [0%N] U) in
+    exists sel, mapM (nthZ bases) U' = Ok sel /\
+      let c := hash_int (str_cat (sel ++ [pk_b pk; c_value C; nm_t p])) in
+      length (nm_s1 p) = length U' /\
+      (0 < c < 2 ^ 256 ->
+       forall k, (k < length U')%nat ->
+         2 ^ 64 <= nth k (nm_s1 p) 0 / c - nth (N.to_nat (nth k U' 0%N)) msgs 1).
+  Proof.
+    intros Hd H Hk. cbv zeta. unfold nispm_gen in H.
+    set (U' := if Nat.eqb (length msgs) 1 then [0%N] else option_default [0%N] U) in *.
+    mstep H r1 d1 Hr1. mstep H r2 d2 Hr2. mstep H t0 d3 Ht0. mstep H sel d4 Hsel. mstep H hb d5 Hhb. mstep H s1 d6 Hs1.
+    apply mret_ok in H as [-> _]. apply lift_ok in Hsel as [Hsel _]. apply lift_ok in Hs1 as [Hs1 _].
+    destruct (mmapM_bits_top _ _ _ _ _ Hd Hr1) as [Hr1top [Hr1l _]].
+    exists sel. split; [exact Hsel|]. cbn [nm_s1 nm_t].
+    destruct (resp_idx_spec msgs _ U' r1 s1 Hr1l Hs1) as [Hls Hns].
+    split; [exact Hls|]. intros Hc k Hk'.
+    rewrite (Hns k Hk').
+    assert (Hrk : 2 ^ (lm CS + MASK - 1) <= nth k r1 0).
+    { rewrite Forall_forall in Hr1top. apply Hr1top. apply nth_In. lia. }
+    eapply mask_ok; eassumption.
+  Qed.
 End MK.
